@@ -280,6 +280,41 @@ def s_slice_contains(e, st, callee, args, dty):
     return NotImplemented
 
 
+def s_slice_binary_search(e, st, callee, args, dty):
+    """<[T]>::binary_search(&x) on a constant integer / char array with a symbolic x: the steps of std's algorithm (size halving
+    with `base = if arr[mid] > x { base } else { mid }`, one final comparison) are emulated over z3 terms, so an array that is not
+    sorted gives exactly the answers the real search gives.  Result: Ok(index) iff the final probe equals x."""
+    from mirsym import EnumV
+    arr = deref_val(e, st, args[0])
+    x = deref_val(e, st, args[1])
+    if not (isinstance(arr, Agg) and arr.ty == "array" and isinstance(x, Int)):
+        return NotImplemented
+    vals = [arr.fields[i] for i in sorted(arr.fields)]
+    if not vals or not all(isinstance(v, Int) for v in vals):
+        return NotImplemented
+    n = len(vals)
+    w = x.t.size()
+    idx_w = 64
+
+    def at(ix):
+        t = vals[-1].t
+        for i in range(n - 2, -1, -1):
+            t = z3.If(ix == z3.BitVecVal(i, idx_w), vals[i].t, t)
+        return t
+    base = z3.BitVecVal(0, idx_w)
+    size = n
+    while size > 1:
+        half = size // 2
+        mid = base + z3.BitVecVal(half, idx_w)
+        base = z3.If(z3.UGT(at(mid), x.t), base, mid)
+        size -= half
+    probe = at(base)
+    found = probe == x.t
+    ok = EnumV("Result", "Ok", 0, {0: Int(z3.simplify(base), "usize")})
+    err = EnumV("Result", "Err", 1, {0: Int(z3.simplify(base + z3.If(z3.ULT(probe, x.t), z3.BitVecVal(1, idx_w), z3.BitVecVal(0, idx_w))), "usize")})
+    return ("multi", [(found, ok), (z3.Not(found), err)])
+
+
 # ---- formatting ----------------------------------------------------------------------------------
 
 def s_fmt_argument(e, st, callee, args, dty):
@@ -830,6 +865,7 @@ STR = {
     r"^<(std::str::)?Chars(<'_>)? as (std::iter::)?Iterator>::next$": s_chars_next,
     r"^<(std::str::)?Chars(<'_>)? as (std::iter::)?Iterator>::any$": s_iter_any,
     r"^core::slice::(<impl \[T\]>::)?contains$": s_slice_contains,
+    r"^core::slice::(<impl \[T\]>::)?binary_search$": s_slice_binary_search,
     r"^(core::fmt::rt::)?Argument::new_(display|debug)$": s_fmt_argument,
     r"^(std::fmt::|core::fmt::)?Arguments::(new|new_const|from_str)$": s_fmt_arguments,
     r"^(std::fmt::|alloc::fmt::)?format$": s_format,
